@@ -26,6 +26,12 @@ const sdpH264 = "v=0\r\no=- 0 0 IN IP4 127.0.0.1\r\ns=t\r\nc=IN IP4 127.0.0.1\r\
 	"a=fmtp:97 profile-level-id=1;mode=AAC-hbr;sizelength=13;indexlength=3;indexdeltalength=3; config=121056E500\r\n" +
 	"a=control:streamid=1\r\n"
 
+const sdpH265 = "v=0\r\no=- 0 0 IN IP4 127.0.0.1\r\ns=t\r\nc=IN IP4 127.0.0.1\r\nt=0 0\r\n" +
+	"m=video 0 RTP/AVP 96\r\na=rtpmap:96 H265/90000\r\na=control:streamid=0\r\n" +
+	"m=audio 0 RTP/AVP 97\r\na=rtpmap:97 MPEG4-GENERIC/44100/2\r\n" +
+	"a=fmtp:97 profile-level-id=1;mode=AAC-hbr;sizelength=13;indexlength=3;indexdeltalength=3; config=121056E500\r\n" +
+	"a=control:streamid=1\r\n"
+
 // recording consumer
 type rec struct {
 	mu      sync.Mutex
@@ -61,7 +67,13 @@ func (r *rec) Close() error { r.mu.Lock(); r.closes++; r.mu.Unlock(); return nil
 
 // MakePacket builds an RTP packet whose payload classifies as the given kind and carries id.
 // kind: 0 audio channel, 1 video non-key, 2 IDR, 3 SPS, 4 PPS.
+// h265 selects the HEVC payload layout (2-byte NAL header) for MakePacket; set per case by Run.
+var h265 bool
+
 func MakePacket(id int64, kind int64) *rtp.Packet {
+	if h265 {
+		return makePacket265(id, kind)
+	}
 	nal := byte(0x41)
 	ch := byte(rtp.ChannelVideo)
 	switch kind {
@@ -120,6 +132,38 @@ func tagID(t *flv.Tag) int64 {
 	return int64(d[0])<<24 | int64(d[1])<<16 | int64(d[2])<<8 | int64(d[3])
 }
 
+// kind: 0 audio channel, 1 TRAIL_R, 2 IDR_W_RADL, 3 SPS, 4 PPS, 5 VPS
+func makePacket265(id int64, kind int64) *rtp.Packet {
+	ch := byte(rtp.ChannelVideo)
+	t := byte(1)
+	switch kind {
+	case 0:
+		ch = byte(rtp.ChannelAudio)
+	case 2:
+		t = 19
+	case 3:
+		t = 33
+	case 4:
+		t = 34
+	case 5:
+		t = 32
+	}
+	// RTP header, 2-byte NAL header at 12..13, id at 13..16 would collide: keep the id where idOf reads it (13..16)
+	// by using a 1-byte shift: layout 12: nal0, 13..16: id is not possible with a 2-byte header, so the second
+	// header byte is the first id byte for HEVC ids < 2^24 (0) ... use layout nal0, nal1=id>>24 (always 0 or 1 here)
+	d := make([]byte, 12+1+4+3)
+	d[0] = 0x80
+	d[1] = 96
+	d[2], d[3] = byte(id>>8), byte(id)
+	d[12] = t << 1
+	d[13], d[14], d[15], d[16] = byte(id>>24), byte(id>>16), byte(id>>8), byte(id)
+	pk := &rtp.Packet{Channel: ch, Data: d}
+	if err := pk.Header.Unmarshal(pk.Data); err != nil {
+		panic(err)
+	}
+	return pk
+}
+
 func idOf(pk *rtp.Packet) int64 {
 	d := pk.Data
 	return int64(d[13])<<24 | int64(d[14])<<16 | int64(d[15])<<8 | int64(d[16])
@@ -139,9 +183,14 @@ func Run(c Val) Val {
 		maxq = 0 // the built-in limit
 	}
 	media.VerifSetMaxQLen(maxq)
+	h265 = c.At(10).Bool()
 	ctl := sched.New()
 	ctl.Skip["sweep.zero"] = 1 // close() sweeps the (empty) FLV consumers first; the model's K2 is the RTP sweep
-	s := media.NewStream("/lts/"+strconv.Itoa(n), sdpH264)
+	sdpText := sdpH264
+	if h265 {
+		sdpText = sdpH265
+	}
+	s := media.NewStream("/lts/"+strconv.Itoa(n), sdpText)
 	ctl.Settle()
 	recs := make([]*rec, n)
 	cids := make([]media.CID, n)
